@@ -57,9 +57,11 @@ EXT = {
                                               ["&mut Fe", "&mut Fe", "Choice"], None, outs=[0, 1]),
     (None, "ct_array64_maybe_set"): Ext("Fe.ofWords (CT.ct_array64_maybe_set (Fe.toWords {0}) (Fe.toWords {1}) {2})",
                                         ["&mut Fe", "Fe", "Choice"], None, outs=[0]),
+    ("u64", "to_le_bytes"): Ext("natToLE 8 {self}", [], "[u8; 8]", recv="u64"),
     ("choice", "negate"): Ext("CT.Choice.negate {self}", [], "Choice", recv="Choice"),
     ("choice", "is_true"): Ext("CT.Choice.isTrue {self}", [], "bool", recv="Choice"),
     ("list:u64", "ct_eq"): Ext("CT.array_u64_ct_eq ({self}.map UInt64.ofNat) ({0}.map UInt64.ofNat)", ["[u64; 4]"], "Choice", recv="[u64; 4]"),
+    (None, "barrett_reduce256"): Ext("Scalar64.barrett_reduce256 {0} {1}", ["Scalar", "Scalar"], "Scalar", fails=True),
     (None, "lt_order"): Ext("Scalar64.lt_order {0}", ["Scalar"], "bool", fails=True),
     (None, "mul"): Ext("Scalar64.mul {0} {1}", ["Scalar", "Scalar"], "Scalar", fails=True),
     (None, "add"): Ext("Scalar64.add {0} {1}", ["Scalar", "Scalar"], "Scalar", fails=True),
@@ -168,6 +170,35 @@ I_SC1 = r"const MASK56: u64 = 0x00ff_ffff_ffff_ffff;\s*impl Scalar \{"
 SQR = Fn(PROG, F_FE64, "square_repeatdly", scope=I_FE2, owner="Fe", kind="limb_loop",
          doc="`Fe::square_repeatdly`: the loop around the limb kernel (tied by Props/C15/KernelTieFe64.lean)")
 SQR.body_kernel = "KernelsFe64.square_repeatdly_body_src"
+FE_CONSTS = {"MASK": ("MASK", "u64"), "FOUR_P0": ("FOUR_P0", "u64"), "FOUR_P1234": ("FOUR_P1234", "u64")}
+FE_LOAD = Fn(PROG, F_FE64, "load", scope=r"pub const fn from_bytes\(bytes: &\[u8; 32\]\) -> Fe", owner="Fe", name="Fe.from_bytes_load_src",
+             ext_key=None, doc="`load` inside `Fe::from_bytes`: 8 bytes at `ofs`, little endian")
+FE_FROM_BYTES = Fn(PROG, F_FE64, "from_bytes", scope=I_FE2, owner="Fe", doc="`Fe::from_bytes`")
+FE_FROM_BYTES.local_ext = {(None, "load"): Ext("Fe.from_bytes_load_src {0} {1}", [B32, "usize"], "u64", fails=True)}
+FE_FROM_BYTES.local_consts = FE_CONSTS
+FE_TO_BYTES = Fn(PROG, F_FE64, "to_bytes", scope=I_FE2, owner="Fe", doc="`Fe::to_bytes`: `to_packed`, then the four `write8!`")
+FE_NEGATE_MUT = Fn(PROG, F_FE64, "negate_mut", scope=I_FE2, owner="Fe", doc="`Fe::negate_mut` (the statements of `Neg`, in place)")
+FE_NEGATE_MUT.local_consts = FE_CONSTS
+SC_CONSTS = {"MASK16": ("Scalar64.MASK16", "u64"), "MASK40": ("Scalar64.MASK40", "u64"), "MASK56": ("Scalar64.MASK56", "u64")}
+I_SC2 = r"reduce256\(reduce256\(out\)\)\s*\}\s*impl Scalar \{"       # the second `impl Scalar` block of scalar64.rs
+SC_LOAD32 = Fn(PROG, F_SC64, "load", scope=r"pub const fn from_bytes\(bytes: &\[u8; 32\]\) -> Self", owner="Scalar",
+               name="Scalar.from_bytes_load_src", ext_key=None, doc="`load` inside `Scalar::from_bytes`")
+SC_FROM_BYTES = Fn(PROG, F_SC64, "from_bytes", scope=I_SC1, owner="Scalar", doc="`Scalar::from_bytes`")
+SC_FROM_BYTES.local_ext = {(None, "load"): Ext("Scalar.from_bytes_load_src {0} {1}", [B32, "usize"], "u64", fails=True)}
+SC_FROM_BYTES.local_consts = SC_CONSTS
+SC_TO_BYTES = Fn(PROG, F_SC64, "to_bytes", scope=I_SC1, owner="Scalar", doc="`Scalar::to_bytes`")
+SC_LOAD64 = Fn(PROG, F_SC64, "load", scope=r"pub const fn reduce_from_wide_bytes\(s: &\[u8; 64\]\) -> Scalar", owner="Scalar",
+               name="Scalar.reduce_from_wide_bytes_load_src", ext_key=None, doc="`load` inside `Scalar::reduce_from_wide_bytes`")
+SC_REDUCE = Fn(PROG, F_SC64, "reduce_from_wide_bytes", scope=I_SC2, owner="Scalar",
+               doc="`Scalar::reduce_from_wide_bytes`: the two 264-bit windows, then the Barrett kernel (tied by Props/C15/KernelTieScalar64.lean)")
+SC_REDUCE.local_ext = {(None, "load"): Ext("Scalar.reduce_from_wide_bytes_load_src {0} {1}", [B64, "usize"], "u64", fails=True)}
+SC_REDUCE.local_consts = SC_CONSTS
+SC_REDUCE.arrays = {("u64", 5): "Scalar"}
+SC_REDUCE.hints = {"out": "[u64; 5]", "q1": "[u64; 5]"}
+SC_BITS = Fn(PROG, F_SC64, "bits", scope=I_SC1, owner="Scalar", doc="`Scalar::bits`")
+SC_BITS.hints = {"c": "[u64; 4]"}
+SC_NIBBLES = Fn(PROG, F_SC64, "nibbles", scope=I_SC1, owner="Scalar", doc="`Scalar::nibbles`")
+SC_NIBBLES.hints = {"c": "[u64; 4]"}
 I_AFF, I_P1P1, I_PART, I_GE, I_PRE = r"impl GeAffine \{", r"impl GeP1P1 \{", r"impl GePartial \{", r"impl Ge \{", r"impl GePrecomp \{"
 
 KERNELS = [
@@ -222,7 +253,9 @@ KERNELS = [
     K(F_FE64, r"impl CtEqual for &Fe", "ct_eq", "Fe", doc="`impl CtEqual for &Fe`: `ct_eq`"),
     K(F_FE64, r"impl CtEqual for &Fe", "ct_ne", "Fe", doc="`impl CtEqual for &Fe`: `ct_ne`", ext_key=None),
     K(F_FE64, r"impl PartialEq for Fe", "eq", "Fe", doc="`impl PartialEq for Fe`", ext_key=None),
+    FE_LOAD, FE_FROM_BYTES, FE_TO_BYTES, FE_NEGATE_MUT,
     # ---------------------------------------------------------------- (b) Scalar
+    SC_LOAD32, SC_FROM_BYTES, SC_TO_BYTES, SC_LOAD64, SC_REDUCE, SC_BITS, SC_NIBBLES,
     K(F_SC64, I_SC1, "from_bytes_canonical", "Scalar", doc="`Scalar::from_bytes_canonical`"),
     Fn(PROG, F_SC64, "muladd", name="Scalar.muladd_src", ext_key=(None, "muladd"), doc="`scalar::muladd`"),
     K(F_SC, r"impl Scalar \{", "slide", "Scalar", doc="`Scalar::slide`: the signed sliding-window recoding (three nested loops)"),
